@@ -147,6 +147,8 @@ class Ctx:
         self.attr_objs: dict[tuple, object] = {}
         self.dummy_ids: dict = {}
         self.dummies: dict = {}
+        self.fn_ids: dict = {}
+        self.fn_keep: list = []  # keeps the functions alive so that ids stay unique
 
     def fresh(self):
         """Forget the dummy numbering (call before converting an independent expression)."""
@@ -183,6 +185,12 @@ def attr_of(value, ctx: Ctx):
         a = ("cls", class_key(value))
     elif isinstance(value, str):
         a = ("str", value)
+    elif inspect.isfunction(value) or inspect.ismethod(value) or inspect.isbuiltin(value):
+        # a function is an opaque token whose identity is the identity of the Python object:
+        # two closures of one factory (same module and qualname) are two different tokens
+        k = ctx.fn_ids.setdefault(id(value), len(ctx.fn_ids))
+        ctx.fn_keep.append(value)
+        a = ("obj", f"fn:{getattr(value, '__module__', '?')}.{getattr(value, '__qualname__', '?')}#{k}")
     else:
         a = ("obj", repr(value))
     ctx.attr_objs[a] = value
